@@ -227,46 +227,6 @@ def run(prog: Program, ctx: Ctx) -> None:  # noqa: PLR0912,PLR0915
     ctx.ob("R5", key(xe, "result-stored"), len(store) == 1, "the expanded list replaces module.exports", where(xe))
 
     # ------------------------------------------------------------------ R6
-    ctx.rule("R6", "visit_import / visit_importfrom record every non-wildcard name in the import map before placing the alias; no alias is "
-                   "created that points at its own path; an import of a dotted module without `as` binds the top-level package")
-    for name in ("visit_import", "visit_importfrom"):
-        fn = prog.function(f"_griffe.agents.visitor.Visitor.{name}")
-        cfg = cfg_of(fn)
-        imp = [n for n in cfg.live_nodes() if n.kind == "stmt" and isinstance(n.stmt, ast.Assign) and isinstance(n.stmt.targets[0], ast.Subscript)
-               and unparse(n.stmt.targets[0].value).endswith(".imports")]
-        sm = [n for n in cfg.live_nodes() if n.kind == "stmt" and any(isinstance(c, ast.Call) and isinstance(c.func, ast.Attribute) and c.func.attr == "set_member" for c in walk_no_nested(n.stmt, include_self=True))]
-        ctx.ob("R6", key(fn, "imports-write"), len(imp) == 1 and unparse(imp[0].stmt.targets[0].slice) == "alias_name" and unparse(imp[0].stmt.value) == "alias_path",
-               "imports[alias_name] = alias_path", where(fn))
-        if imp and sm:
-            if name == "visit_import":
-                ok = all(cfg.dominated_by_node(s, lambda x: x in imp) for s in sm)
-            else:
-                # wildcard imports have no name to record: set_member is preceded by the write unless name == '*'
-                def star(a, _b, label):
-                    return a.kind == "test" and a.expr is not None and label in "TF" and any(unparse(at) == "name.name == '*'" and tr for at, tr in implied(a.expr, label == "T"))
+    from sa.importrules import import_rules
 
-                ok = not (cfg.reach(cfg.entry, avoid=lambda x: x in imp, avoid_edge=star, normal_only=True) & set(sm))
-            ctx.ob("R6", key(fn, "imports-before-alias"), ok, "the import map is written before the alias is placed (for every non-wildcard name)", where(fn))
-    vif = prog.function("_griffe.agents.visitor.Visitor.visit_importfrom")
-    cfg = cfg_of(vif)
-    cons = [n for n in cfg.live_nodes() if n.kind == "stmt" and isinstance(n.stmt, ast.Assign) and isinstance(n.stmt.value, ast.Call) and dotted(n.stmt.value.func) == "Alias"]
-    for c in cons:
-        ok = cfg.dominated_by_fact(c, lambda a, t: t and isinstance(a, ast.Compare) and isinstance(a.ops[0], ast.NotEq) and unparse(a.left) == "alias_path"
-                                   and "self.current.path" in unparse(a.comparators[0]) and "alias_name" in unparse(a.comparators[0]))
-        ctx.ob("R6", key(vif, "no-self-alias"), ok, "an alias whose target path equals its own path is never created", where(vif, c.stmt))
-    ctx.expect_min("R6", len(cons), 1)
-    vi = prog.function("_griffe.agents.visitor.Visitor.visit_import")
-    it2 = Interp(prog)
-    for mod_name, asname, want in (("a", None, ("a", "a")), ("a.b.c", None, ("a", "a")), ("a.b.c", "x", ("x", "a.b.c")), ("a", "y", ("y", "a"))):
-        # evaluate the two local definitions alias_path / alias_name
-        env = Env(vi.module)
-        from sa.absint import Obj
-
-        env.set("name", Obj(None, {"name": mod_name, "asname": asname}))
-        defs = {unparse(s.targets[0]): s.value for s in walk_no_nested(vi.node) if isinstance(s, ast.Assign) and unparse(s.targets[0]) in ("alias_path", "alias_name")}
-        if set(defs) != {"alias_path", "alias_name"}:
-            raise AnalysisError("C05-R6: alias_path / alias_name definitions not found in visit_import")
-        env.set("alias_path", it2.eval(defs["alias_path"], env))
-        env.set("alias_name", it2.eval(defs["alias_name"], env))
-        got = (env.vars["alias_name"], env.vars["alias_path"])
-        ctx.ob("R6", f"import|{mod_name} as {asname}", got == want, f"`import {mod_name}{' as ' + asname if asname else ''}` binds {got[0]} -> {got[1]}, expected {want[0]} -> {want[1]}", where(vi))
+    import_rules(prog, ctx, "R6")
